@@ -1,24 +1,9 @@
 // @module store::h
 // Shared helpers of the store harnesses (included into `store::h`).
 use super::*;
-use core::future::Future;
-use core::task::{Context, Poll, Waker};
 
 #[cfg(not(kani))]
 use crate::vreplay_support::FromSlots;
-
-pub(crate) fn block_on<F: Future>(f: F) -> F::Output {
-    let mut f = core::pin::pin!(f);
-    let waker = Waker::noop();
-    let mut cx = Context::from_waker(&waker);
-    match f.as_mut().poll(&mut cx) {
-        Poll::Ready(v) => v,
-        Poll::Pending => {
-            kani::assume(false);
-            unreachable!()
-        }
-    }
-}
 
 pub(crate) fn s(x: &str) -> String {
     x.to_owned()
@@ -82,4 +67,29 @@ pub(crate) fn cid(n: u128) -> ClientId {
 /// is the single most expensive thing for the engine). Listed in the evidence as a stub.
 pub(crate) fn stub_format(_args: core::fmt::Arguments<'_>) -> String {
     String::new()
+}
+
+/// Stub for `MaybeUninit::<T>::write`: the same effect through a typed raw-pointer write. std writes a
+/// *union* value (`MaybeUninit::new(val)`), after which CBMC no longer constant-folds reads of the stored
+/// value (measured on `<[String]>::to_vec`, used by `Box<[String]>::clone` in the lock paths).
+pub(crate) fn stub_mu_write<T>(this: &mut core::mem::MaybeUninit<T>, val: T) -> &mut T {
+    let p = this.as_mut_ptr();
+    unsafe {
+        p.write(val);
+        &mut *p
+    }
+}
+
+/// Stub for `Result::<T, E>::ok`: identical, except that the discarded error is leaked instead of dropped.
+/// The drop glue of `WorterbuchError` (io::Error, Box<dyn Error>, ...) on a path that is infeasible but not
+/// folded away is the single most expensive thing in `Store::unlock_all` (900 s -> 20 s); dropping an
+/// error value has no effect that any property observes.
+pub(crate) fn stub_result_ok<T, E>(r: Result<T, E>) -> Option<T> {
+    match r {
+        Ok(v) => Some(v),
+        Err(e) => {
+            core::mem::forget(e);
+            None
+        }
+    }
 }
